@@ -19,6 +19,10 @@ def epochReligQ : Handler := fun fn a =>
   | "jewish_pesach" => some <| out (GenQ.jewish_pesach a[0]!.i)
   | "moslem2gregorian" => some <| out (GenQ.moslem2gregorian a[0]!.i a[1]!.i a[2]!.i)
   | "gregorian2moslem" => some <| out (GenQ.gregorian2moslem a[0]!.i a[1]!.i a[2]!.i)
+  | "easter_num" => some <| out (GenQ.easter_num a[0]!.q)
+  | "jewish_pesach_num" => some <| out (GenQ.jewish_pesach_num a[0]!.q)
+  | "moslem2gregorian_num" => some <| out (GenQ.moslem2gregorian_num a[0]!.q a[1]!.q a[2]!.q)
+  | "gregorian2moslem_num" => some <| out (GenQ.gregorian2moslem_num a[0]!.q a[1]!.q a[2]!.q)
   | "relig_doy2date_julian" => some <| out (GenQ.relig_doy2date_julian a[0]!.i a[1]!.i)
   | "spec_easter" => some <| out (Spec.Computus.easter a[0]!.i)
   | "spec_rosh_hashanah" => some <| out (Spec.Hebrew.roshHashanah a[0]!.i)
@@ -38,6 +42,10 @@ def epochReligF : Handler := fun fn a =>
   | "jewish_pesach" => some <| out (GenF.jewish_pesach a[0]!.i)
   | "moslem2gregorian" => some <| out (GenF.moslem2gregorian a[0]!.i a[1]!.i a[2]!.i)
   | "gregorian2moslem" => some <| out (GenF.gregorian2moslem a[0]!.i a[1]!.i a[2]!.i)
+  | "easter_num" => some <| out (GenF.easter_num a[0]!.f)
+  | "jewish_pesach_num" => some <| out (GenF.jewish_pesach_num a[0]!.f)
+  | "moslem2gregorian_num" => some <| out (GenF.moslem2gregorian_num a[0]!.f a[1]!.f a[2]!.f)
+  | "gregorian2moslem_num" => some <| out (GenF.gregorian2moslem_num a[0]!.f a[1]!.f a[2]!.f)
   | "relig_doy2date_julian" => some <| out (GenF.relig_doy2date_julian a[0]!.i a[1]!.i)
   | "relig_dow" => some <| out (GenF.relig_dow a[0]!.f)
   | "relig_dow_ymd" => some <| out (match GenF.epoch_ymd a[0]!.i a[1]!.i a[2]!.f with
